@@ -1,5 +1,6 @@
 """Executors: replay one case (exact rational inputs) into the real code and record what it did.
 An executor never judges; it logs outcome class + projected outputs."""
+import os
 import warnings
 
 import numpy as np
@@ -765,7 +766,28 @@ def ex_whist(c):
         def one(a):
             return (str(a.dtype), a.tobytes()) if isinstance(a, np.ndarray) else repr(a)
         return [one(cx), one(cy)] + [one(g) for g in _GRIDS]
-    w = Weaver(cx, cy)
+    ctor = st.get("ctor", "plain")          # the factories must build the same object as Weaver(x, y)
+    if ctor == "2d":
+        xy = np.column_stack((np.asarray(cx, dtype=float), np.asarray(cy, dtype=float)))
+        cx = cy = xy                        # the caller's buffer is the 2-D array
+        w = Weaver.from_2d_array(xy)
+    elif ctor == "csv":
+        import tempfile
+        with tempfile.NamedTemporaryFile("w", suffix=".csv", delete=False, dir=os.environ.get("TMPDIR", "/tmp")) as f:
+            for a, b in zip(np.asarray(cx, dtype=float), np.asarray(cy, dtype=float)):
+                f.write("%r,%r\n" % (float(a), float(b)))
+        try:
+            w = Weaver.from_csv(f.name)
+        finally:
+            os.unlink(f.name)
+    elif ctor == "df":
+        import pandas as pd
+        df = pd.DataFrame({0: np.asarray(cx, dtype=float), 1: np.asarray(cy, dtype=float)})
+        w = Weaver.from_dataframe(df)
+    elif ctor == "none_x":                  # x omitted: abscissae 0, 1, 2, ...
+        w = Weaver(None, cy)
+    else:
+        w = Weaver(cx, cy)
     e = {"fn": "whist", "start": {"x": st["x"], "y": st["y"]}, "init": wobs(w), "steps": []}
     for op in c["ops"]:
         before = snap(w)
